@@ -1288,7 +1288,7 @@ func (sq *Queue) TryIncAllocatedResource(alloc *resources.Resource) error {
 		if err := sq.parent.TryIncAllocatedResource(alloc); err != nil {
 			// only log the warning if we get to the leaf: otherwise we could spam the log with the same message
 			// each time we return from a recursive call. Worst case (hierarchy depth-1) times.
-			if sq.isLeaf {
+			if sq.IsLeafQueue() {
 				log.Log(log.SchedQueue).Warn("parent queue exceeds maximum resource",
 					zap.String("leafQueue", sq.QueuePath),
 					zap.Stringer("allocationRequest", alloc),
@@ -1375,7 +1375,7 @@ func (sq *Queue) DecAllocatedResource(alloc *resources.Resource) error {
 		if err := sq.parent.DecAllocatedResource(alloc); err != nil {
 			// only log the warning if we get to the leaf: otherwise we spam the log with the same message
 			// each time we return from a recursive call. Worst case (hierarchy depth-1) times.
-			if sq.isLeaf {
+			if sq.IsLeafQueue() {
 				log.Log(log.SchedQueue).Warn("released allocation is larger than parent queue allocated resource",
 					zap.String("leafQueue", sq.QueuePath),
 					zap.Stringer("allocationRequest", alloc),
